@@ -224,6 +224,13 @@ def compare_set(si, docs, impl, model, stats):
             continue
         o, pos, mem, file = obs[0]
         cls = "clear" if not (sp["err"] or sp["cyc"] or sp["oof"]) else ("oof" if sp["oof"] else "cyclic" if sp["cyc"] else "error")
+        if cls == "clear":
+            # the property's equality is about acyclic (and well-formed) *sets*: every document this one reads must be clear too
+            for x in ref_closure(docs, d):
+                sx = spec.get(x)
+                if sx is not None and (sx["err"] or sx["cyc"]):
+                    cls = "reads-cyclic-or-erroneous"
+                    break
         stats["class:" + cls] = stats.get("class:" + cls, 0) + 1
         if sp["oof"]:
             yield ("spec-out-of-fuel", "compile_spec ran out of fuel (check parameter too small)", {"set": si, "document": d, "documents": docs_json(docs)}, False)
@@ -250,11 +257,56 @@ def compare_set(si, docs, impl, model, stats):
             sp2 = spec.get(rid)
             if sp2 is None or sp2["err"] or sp2["cyc"] or sp2["oof"]:
                 continue
+            if any((spec.get(x) or {}).get("err") or (spec.get(x) or {}).get("cyc") for x in ref_closure(docs, rid)):
+                continue
             stats["relinked"] = stats.get("relinked", 0) + 1
             if tree != expected_mem(sp2["tree"]):
                 yield ("source-changed:" + diff_key(docs, d), "after compiling '%s', the document '%s' it reads no longer compiles to its own result" % (d, rid),
                        {"set": si, "documents": docs_json(docs), "document": d, "read_document": rid,
                         "librime": G.pretty(G.parse_canon(tree)), "compile_spec": G.pretty(G.parse_canon(expected_mem(sp2["tree"])))}, True)
+
+
+def direct_refs(d, y):
+    """document ids named by the directives of document d (syntactic over-approximation)"""
+    out = set()
+
+    def ref(sv):
+        q = sv.rstrip("?")
+        if ":" in q and not q.startswith(":"):
+            r = q.split(":", 1)[0]
+            out.add(r[:-5] if r.endswith(".yaml") else r)
+
+    def walk(n):
+        if n[0] == "L":
+            for x in n[1]:
+                walk(x)
+        elif n[0] == "M":
+            for k, v in n[1]:
+                if k == "__include" and v[0] == "S":
+                    ref(v[1])
+                elif k == "__patch":
+                    for e in (v[1] if v[0] == "L" else [v]):
+                        if e[0] == "S":
+                            ref(e[1])
+                elif k == "import_preset" and v[0] == "S":
+                    out.add(v[1])
+                walk(v)
+    walk(y)
+    out.add((d[:-7] if d.endswith(".schema") else d) + ".custom")
+    if d.endswith(".schema"):
+        out.add("default")
+    return out
+
+
+def ref_closure(docs, d):
+    seen, todo = set(), [d]
+    while todo:
+        x = todo.pop()
+        if x in seen or x not in docs:
+            continue
+        seen.add(x)
+        todo += list(direct_refs(x, docs[x]))
+    return seen
 
 
 def shape_key(docs):
@@ -263,6 +315,8 @@ def shape_key(docs):
 
 def diff_key(docs, d):
     """a coarse class of the failing input: which directive kinds the set uses"""
+    if G.has_directive_directly_in_patch_literal(docs):
+        return "directive-directly-in-patch-literal"
     txt = " ".join(G.to_yaml(y) for y in docs.values())
     feats = []
     for name, pat in (("include", "__include"), ("patch", "__patch"), ("append", "/+"), ("replace", "/="),
